@@ -499,10 +499,112 @@ func (vc *VC) pureResult(fc *FuncContract, sig *types.Signature, k int, env *Spe
 	}
 	vc.ss.declare(&sortInfo{Name: Sort("fn$" + fn), Kind: "const", Decl: fmt.Sprintf("(declare-fun %s (%s) %s)", fn, strings.Join(sorts, " "), rs)})
 	res := Term{app(fn, argTerms...), rs, rt}
-	if f := vc.rangeFacts(res, rt, 0); f.S != "true" {
+	if f := vc.rangeFacts(res, rt, 0); f.S != "true" && !strings.Contains(res.S, "?") {
 		vc.assume(tBool(true), f)
 	}
+	vc.pureDefAxiom(fc, sig, fn, pnames, rname)
 	return res
+}
+
+// pureDefAxiom: the contract of a pure function as a quantified fact about
+// its result functions,
+//
+//	forall recv, params. requires => ensures[results := fn.k(recv, params)]
+//
+// (sound when the function satisfies its contract — it is verified in its own
+// property group or listed as trusted — and is deterministic). Not added
+// while the function itself is being verified.
+func (vc *VC) pureDefAxiom(fc *FuncContract, sig *types.Signature, fnBase string, pnames []string, rname string) {
+	if len(fc.Ensures) == 0 || (vc.fi != nil && vc.fi.Key == fc.Key) {
+		return
+	}
+	if vc.pureAx == nil {
+		vc.pureAx = map[string]bool{}
+	}
+	id := fnBase[:strings.LastIndex(fnBase, ".")]
+	if len(vc.ss.tparams) > 0 {
+		id = fnBase
+	}
+	if vc.pureAx[id] {
+		return
+	}
+	vc.pureAx[id] = true
+	env := &SpecEnv{vc: vc, vars: map[string]Value{}, old: map[string]Value{}, bound: map[string]Term{}, pkg: fc.Pkg}
+	var decls []string
+	var facts []Term
+	var args []Term
+	if sig.Recv() != nil {
+		rt := sig.Recv().Type()
+		rs := vc.ss.sortOf(rt)
+		r := Term{"r?", rs, rt}
+		decls = append(decls, fmt.Sprintf("(r? %s)", rs))
+		env.bound[rname] = r
+		env.bound["self"] = r
+		args = append(args, r)
+		if f := vc.rangeFacts(r, rt, 1); f.S != "true" {
+			facts = append(facts, f)
+		}
+	}
+	for i, n := range pnames {
+		pt := sig.Params().At(i).Type()
+		ps := vc.ss.sortOf(pt)
+		a := Term{fmt.Sprintf("a%d?", i), ps, pt}
+		decls = append(decls, fmt.Sprintf("(a%d? %s)", i, ps))
+		env.bound[n] = a
+		args = append(args, a)
+		if f := vc.rangeFacts(a, pt, 1); f.S != "true" {
+			facts = append(facts, f)
+		}
+	}
+	if len(decls) == 0 {
+		return
+	}
+	var pats []string
+	prefix := fnBase[:strings.LastIndex(fnBase, ".")]
+	suffix := ""
+	if len(vc.ss.tparams) > 0 {
+		// fn.<key>.<k>.<sorts...>: rebuild per result below
+		prefix = ""
+	}
+	rnames := vc.resultNames(fc, sig)
+	var sorts []string
+	for _, a := range args {
+		sorts = append(sorts, string(a.Sort))
+	}
+	for k, rn := range rnames {
+		rt := sig.Results().At(k).Type()
+		rs := vc.ss.sortOf(rt)
+		name := fmt.Sprintf("%s.%d", prefix, k)
+		if prefix == "" {
+			name = fmt.Sprintf("fn.%s.%d", sanitize(strings.TrimPrefix(fc.Key, modPath+"/")), k) + "." + sanitize(string(rs))
+			for _, s := range sorts {
+				name += "." + sanitize(s)
+			}
+		}
+		_ = suffix
+		vc.ss.declare(&sortInfo{Name: Sort("fn$" + name), Kind: "const", Decl: fmt.Sprintf("(declare-fun %s (%s) %s)", name, strings.Join(sorts, " "), rs)})
+		res := Term{app(name, args...), rs, rt}
+		env.bound[rn] = res
+		if len(rnames) == 1 {
+			env.bound["result"] = res
+		}
+		pats = append(pats, ":pattern ("+res.S+")")
+		if f := vc.rangeFacts(res, rt, 1); f.S != "true" {
+			// results are well-typed values
+			facts = append(facts, tBool(true))
+			_ = f
+		}
+	}
+	for _, rq := range fc.Requires {
+		facts = append(facts, vc.specBool(rq.Expr, env))
+	}
+	var posts []Term
+	for _, en := range fc.Ensures {
+		posts = append(posts, vc.specBool(en.Expr, env))
+	}
+	body := tImp(tAnd(facts...), tAnd(posts...))
+	vc.gassumes = append(vc.gassumes, fmt.Sprintf("(assert (forall (%s) (! %s %s))) ; contract of pure %s", strings.Join(decls, " "), body.S, strings.Join(pats, " "), fc.Key))
+	vc.axiomsUsed = append(vc.axiomsUsed, "pure:"+strings.TrimPrefix(fc.Key, modPath+"/"))
 }
 
 // bindTypeArgs installs the type-parameter substitution for a generic callee.
